@@ -26,13 +26,27 @@ SL = "PyMatterSim.reader.simulation_log"
 RU = "PyMatterSim.reader.reader_utils"
 
 NOT_DECIDED = [
-    "binary GSD / DCD formats and the gsd / mdtraj libraries themselves (not installed; the converters are verified on duck-typed frame objects)",
-    "pandas.read_csv (assumed contract: header = line `skiprows`, rows = the next `nrows` lines); character-level text layout beyond tokens",
-    "exact equality of the bounds after the round trip (the writer prints 6 decimals: read back is round6(bound), |difference| <= 5e-7)",
+    "binary GSD / DCD formats and the gsd / mdtraj libraries themselves (not installed; read_gsd_wrapper / read_gsd_dcd_wrapper only import, open and "
+    "delegate: the converters are verified on duck-typed frame objects)",
+    "pandas.read_csv (assumed contract: column names = words of line `skiprows`, rows = the next `nrows` lines, no blank / comment line inside a "
+    "thermodynamic section); content of the frame of an UNFINISHED last section of an interrupted log (the statement speaks of complete sections)",
+    "exact equality of the bounds after the round trip: the writer prints 6 decimals, so what is read back is round6(bound) (proved), within 5e-7 (proved)",
+    "character-level text layout beyond tokens (column widths, exponent formats); decimal <-> binary conversion of numbers (A1)",
+    "order of the selected atoms relies on the assumed numpy contract `a[mask]` keeps positions in increasing order",
+    "malformed inputs: logs whose 'Step ' and 'Loop time of ' lines do not alternate, a last line consisting of blanks only, dumps with a varying "
+    "particle number given to read_additions (its documented presupposition is a fixed 9 + N frame length)",
 ]
 TRUSTED = [
-    "token/file model of pyvc/text.py (readline/readlines, split, int/float of tokens, numpy string->float on assignment, startswith on literal words)",
-    "`.6f` formatting = decimal rounding to 6 places (round6: within 5e-7, monotone, sign preserving; exact on concrete decimals)",
+    "token/file model of pyvc/text.py (readline / readlines, split, int/float of tokens, numpy string->float on assignment, slices of the line list, "
+    "`startswith` / `== '\\n'` / `isnumeric` of a symbolic line as uninterpreted predicates of the line number)",
+    "`.6f` formatting = decimal rounding to 6 places (round6: within 5e-7, monotone, sign preserving; evaluated exactly on concrete decimals)",
+    "assumed library contracts used: boolean-mask / filtered-comprehension selection = increasing enumeration SEL with inverse RANK (pyvc/relops.select), "
+    "ndarray.min/max(axis=0) attained and bounding (relops.extremum), pd.Series.map(dict), np.where, np.diag, np.column_stack, np.maximum, "
+    "dataclasses.replace (new instance, given fields replaced), pandas.read_csv(skiprows, nrows) as (file, header line, first row, row count)",
+    "loop summaries of pyvc/loops.py incl. `L.append(object(i))` -> sequence of per-iteration deep copies (checked by init/step obligations with "
+    "structural value equality) and `every body path raises` -> the loop raises when entered",
+    "wrappers: the per-frame reader enters the frame loop through its contract (returns the frame at the handle and advances to the next frame start, "
+    "None at end of file) — its body is verified by its own unit; the ghost frame-start function FSTART(s+1) = FSTART(s) + 9 + N_s",
 ]
 
 
@@ -1430,7 +1444,10 @@ def _replay_dump_readers(which, seed):
             T = rng.randint(1, 3)
             style = rng.choice(["x", "xs", "xu"])
             extra = rng.randint(1, 3)
-            text, frames = _make_dump(rng, d, style, T, same_n=(which == "additions" or trial % 2 == 0), extra=extra)
+            nmax = 7
+            if which == "additions" and trial % 6 == 5:
+                T, nmax = rng.randint(10, 14), 2         # many frames of few atoms (frame counting by division)
+            text, frames = _make_dump(rng, d, style, T, same_n=(which == "additions" or trial % 2 == 0), extra=extra, nmax=nmax)
             path = os.path.join(tmp, f"t{trial}.dump")
             with open(path, "w") as fh:
                 fh.write(text)
@@ -1523,6 +1540,25 @@ def extra_checks(tier, seed, repo):
 
 
 MANIFEST = {
-    "text": "TODO",
-    "note": "TODO",
+    "text": "write_dump_header / write_data_header (real ASTs; symbolic timestep, N, bounds; 2-D and 3-D; addson absent, empty, one or two words): the "
+            "returned text is exactly the 9 lines of the LAMMPS dump grammar (ITEM: TIMESTEP / ts / ITEM: NUMBER OF ATOMS / N / ITEM: BOX BOUNDS pp pp pp / "
+            "three `lo hi` lines rounded to 6 decimals with the dummy z line -0.5 0.5 in 2-D / ITEM: ATOMS id type x y [z] addson) resp. the 11 lines of the "
+            "data-file header. Round trip: that text followed by N atom lines (ids any permutation) given to the real read_lammps and to the real column "
+            "reader is read back with the same timestep, N, bounds = round6(written bounds) (within 5e-7), box length, atoms by id, and the handle "
+            "ends exactly behind the frame. read_lammps_centertype (symbolic frame, N, type map with 1-3 symbolic distinct keys and symbolic values, "
+            "x / xs / xu columns, d = 2,3): rows = exactly the atoms whose type is a key, in the enumeration of increasing id, types relabelled "
+            "by the map, positions wrapped once (x) / raw (xu) / lo + s L (xs), orthogonal cell, handle advanced by 9 + N, None at EOF. "
+            "read_lammps_vector (1-3 symbolic 1-based column ids): positions[id-1, c] = float(token columnsids[c]-1 of the atom line with that id), "
+            "types by id, cell, handle, EOF. Both wrappers: frame loop with written invariant -> nsnapshots = number of frames, frames in file order, "
+            "each read by one call with the wrapper's own arguments. read_additions (symbolic T frames x N atoms, symbolic column): shape (T, N), "
+            "result[s, id-1] = token ncol of that atom line; frame count int(nlines/(N+9)) = T (lemma). read_gsd / read_gsd_dcd on duck-typed HOOMD "
+            "frames (symbolic frame number, per-frame particle number): nsnapshots = len(f), frame s: timestep, N, typeid + 1, positions cut to ndim "
+            "(GSD) resp. DCD frame s cut to ndim, box length, diag h-matrix, bounds enclosing the positions; None for wrong dimensionality / "
+            "inconsistent frame or particle numbers. read_lammpslog (symbolic log): one frame per 'Step ' line, frame k = read_csv(header = k-th "
+            "'Step ' line, rows = all lines strictly between it and the k-th 'Loop time of ' line) for every complete section, also in interrupted logs.",
+    "note": "On the unchanged /repo two obligations fail with failing replays (genuine defects, fixes in design_notes/C19.fix-1.diff, C19.fix-2.diff): "
+            "read_gsd_dcd assigns to a frozen dataclass (every input raises FrozenInstanceError); read_lammpslog raises ValueError on an interrupted "
+            "log whose unfinished section has a single thermo line (nrows = -1). The ledger is written on the tree with both fixes applied. "
+            "Assumed: floats as reals (A1), token/file model, round6, relational contracts of mask selection / min / max, pandas read_csv and "
+            "Series.map, dataclasses.replace; gsd / mdtraj binary formats are out of reach (duck-typed frames).",
 }
